@@ -117,8 +117,21 @@ def nb_call(rng):
         for i in range(len(vals)):
             if rng.random() < 0.08:
                 vals[i] = None if rng.random() < 0.5 else gen.NAN
+    shifted = rng.random() < 0.08 and len(alpha) >= 4
+    if shifted:
+        # the only common q-grams sit at opposite ends: 'ab'+'xy' vs 'zw'+'ab' (distance = length)
+        core = alpha[:2] * (1 if q <= 2 else 2)
+        x1, x2 = alpha[2] * len(core), alpha[3] * len(core)
+        lv = [core + x1, core + x2, x1 + core][:max(1, nl)] + lv[3:]
+        rv = [x2 + core, x1 + core, core + x2][:max(1, nr)] + rv[3:]
+        k = rng.choice([2 * len(core), 2 * len(core) + 1, 2 * len(core) + 2])
     L = T.table_spec(['lid', 'lattr', 'lx'], [[i * 2 + 1, v, 'x%d' % i] for i, v in enumerate(lv)],
                      dtypes={'lattr': 'object', 'lx': 'object'})
+    if rng.random() < 0.1:
+        # a column of the caller's own named like a helper the join might add: '<join attr>_len'
+        L['cols'].append('lattr_len')
+        L['data']['lattr_len'] = [0 if model.is_missing(v) else len(v.split()) + 7 for v in lv]
+        L['dtypes']['lattr_len'] = 'int64'
     R = T.table_spec(['rid', 'rattr'], [['R%d' % i, v] for i, v in enumerate(rv)],
                      dtypes={'rattr': 'object', 'rid': 'object'})
     call = {'api': 'edit_distance_join', 'ltable': L, 'rtable': R, 'l_key': 'lid', 'r_key': 'rid',
@@ -127,8 +140,13 @@ def nb_call(rng):
             'out_sim_score': rng.random() < 0.8, 'n_jobs': rng.choice([1, 1, 2, 3]),
             'l_out_attrs': rng.choice([None, ['lx'], ['lattr', 'lx']]),
             'r_out_attrs': rng.choice([None, ['rattr']])}
+    if 'lattr_len' in L['cols']:
+        call['l_out_attrs'] = rng.choice([['lattr_len'], ['lattr_len', 'lx'], ['lx', 'lattr_len']])
+    if shifted:
+        call['comp_op'] = rng.choice(['<', '=', '<='])
+        call['threshold'] = k
     if rng.random() < 0.1:
-        call['threshold'] = float(k)
+        call['threshold'] = float(call['threshold'])
     return call
 
 
